@@ -88,10 +88,12 @@ func (vm *Vm) EXTEND_REVERSED(items py.Tuple) {
 // Adds a traceback to the exc passed in for the current vm state
 func (vm *Vm) AddTraceback(exc *py.ExceptionInfo) {
 	exc.Traceback = &py.Traceback{
-		Next:   exc.Traceback,
-		Frame:  vm.frame,
-		Lasti:  vm.frame.Lasti,
-		Lineno: vm.frame.Code.Addr2Line(vm.frame.Lasti),
+		Next:  exc.Traceback,
+		Frame: vm.frame,
+		Lasti: vm.frame.Lasti,
+		// Lasti has already been moved past the instruction being
+		// executed, which might be the last one of its line
+		Lineno: vm.frame.Code.Addr2Line(vm.frame.Lasti - 1),
 	}
 }
 
